@@ -35,9 +35,12 @@ class Collect(logging.Handler):
 
 def run_one(cfg: e3.E3Config, chooser: Chooser):
     from labtech.utils import logger
+    # the caller has several handlers of its own on the labtech logger: each of them must get
+    # every fragment exactly once
     h = Collect()
+    hs = [h, Collect(), Collect()]
     saved_level, saved_handlers, saved_prop = logger.level, list(logger.handlers), logger.propagate
-    logger.handlers = [h]
+    logger.handlers = list(hs)
     logger.setLevel(logging.INFO)
     logger.propagate = False
     at_return: list = []
@@ -59,10 +62,21 @@ def run_one(cfg: e3.E3Config, chooser: Chooser):
         logger.propagate = saved_prop
     # records handled before run_tasks returned = everything collected before the world was finished;
     # run_once_e3 lets the children finish afterwards but nothing consumes the queue any more
-    return obs, list(h.msgs)
+    return obs, [list(x.msgs) for x in hs]
 
 
-def oracle(cfg: e3.E3Config, obs, msgs):
+def oracle(cfg: e3.E3Config, obs, msgs_per_handler):
+    out = []
+    seen = set()
+    for hi, msgs in enumerate(msgs_per_handler if msgs_per_handler and isinstance(msgs_per_handler[0], list) else [msgs_per_handler]):
+        for k, m in oracle_one(cfg, obs, msgs):
+            if k not in seen:
+                seen.add(k)
+                out.append((k, m + (f' (handler #{hi + 1} of the caller)' if hi else '')))
+    return out
+
+
+def oracle_one(cfg: e3.E3Config, obs, msgs):
     out = []
     spec = cfg.spec
     if obs.outcome[0] != 'return':
@@ -73,7 +87,7 @@ def oracle(cfg: e3.E3Config, obs, msgs):
     # the "Logging error" dump of a record that could not be sent, is not a delivery
     seen_tokens: collections.Counter = collections.Counter()
     PREFIX = {'log': 'log', 'warn': 'warn', 'exc': 'exc', 'burst': 'b', 'print': 'out', 'iprint': 'out', 'nprint': 'out',
-              'wprint': 'out', 'eprint': 'out', 'err': 'err'}
+              'wprint': 'out', 'eprint': 'out', 'rprint': 'out', 'err': 'err'}
     first_lines = collections.Counter(m.split('\n', 1)[0] for m in msgs)
     all_lines = collections.Counter(ln.strip() for m in msgs for ln in m.split('\n'))
     for i, pat in cfg.base.emit:
@@ -103,7 +117,7 @@ def explore_cfg(args):
 
     def on_exec(ch, res):
         obs, msgs = res
-        outcomes.add(tuple(sorted(msgs)))
+        outcomes.add(tuple(sorted(msgs[0])))
         for key, msg in oracle(cfg, obs, msgs):
             if key in seen:
                 continue
@@ -130,7 +144,10 @@ def real_dump(cfg_json: str, backend: str, mw: str, storage_dir: str):
     U.WORLD.reset(epoch=1, faults=[spec.labels[i] for i in cfg.faults], emit=emit)
     from labtech.utils import logger
     h = Collect()
-    logger.handlers = [h]
+    logfile = os.path.join(os.path.dirname(storage_dir), 'caller.log')
+    fh = logging.FileHandler(logfile)
+    fh.setFormatter(logging.Formatter('%(message)s'))
+    logger.handlers = [h, fh, Collect()]
     logger.setLevel(logging.INFO)
     logger.propagate = False
     built = Built(spec)
@@ -138,7 +155,8 @@ def real_dump(cfg_json: str, backend: str, mw: str, storage_dir: str):
     import contextlib, io
     with contextlib.redirect_stderr(io.StringIO()):
         res = lab.run_tasks(list(built.canon), disable_progress=True, disable_top=True)
-    print(json.dumps({'returned': len(res), 'msgs': h.msgs}))
+    fh.flush()
+    print(json.dumps({'returned': len(res), 'msgs': h.msgs, 'file_lines': open(logfile).read().split('\n')}))
 
 
 def real_case(args):
@@ -157,7 +175,7 @@ def real_case(args):
         o = json.loads(so.strip().splitlines()[-1])
         fake_cfg = SimpleNamespace(spec=cfg.spec, base=cfg, backend=backend)
         obs = SimpleNamespace(outcome=('return', {}))
-        out = oracle(fake_cfg, obs, o['msgs'])
+        out = oracle(fake_cfg, obs, [o['msgs'], o['file_lines']])
         return [(f'{backend}:real:{k}', f'[real {backend} backend, max_workers={mw}] {m} | cfg={cfg.brief()}') for k, m in out]
     finally:
         shutil.rmtree(tmp, ignore_errors=True)
@@ -169,7 +187,7 @@ def _real(a):
 
 def real_cases(tier: str):
     out = []
-    pats = [('log', 'print'), ('print+flush+print+flush', 'log+print+err+eflush'), ('print', 'print'), ('nprint+iprint', 'exc'), ('wprint', 'eprint')]
+    pats = [('log', 'print'), ('print+flush+print+flush', 'log+print+err+eflush'), ('print', 'print'), ('nprint+iprint', 'exc'), ('wprint', 'eprint'), ('log+print+flush+die', 'log'), ('print+rprint', 'err')]
     for pa, pb in pats:
         for shape in [((), ()), ((), (0,))]:
             base = e2.Config(spec=mk_spec(shape), requested=((0, False), (1, False)), emit=((0, pa), (1, pb)))
@@ -192,7 +210,9 @@ def configs(tier: str):
                 for mw in (1, 2):
                     out.append(e3.E3Config(base=base, backend=be, max_workers=mw, log_mode='choice', liveness_choice=False))
     # output of failing tasks, whitespace-led output, and a burst larger than any plausible queue bound
-    extra = [('print', 'log', (0,)), ('print+err', 'print+flush', (0,)), ('log+print', 'print', (1,)), ('print', 'print', (0, 1)),
+    extra = [('log+die', 'print', ()), ('print+flush+die', 'log', ()), ('warn+print+flush+die', 'print+flush', ()),
+             ('print+rprint+flush', 'log', ()), ('print+rprint+rprint+print', 'print', ()), ('err+rprint', 'rprint', ()),
+             ('print', 'log', (0,)), ('print+err', 'print+flush', (0,)), ('log+print', 'print', (1,)), ('print', 'print', (0, 1)),
              ('iprint+flush+nprint', 'log', ()), ('nprint', 'iprint', ()), ('burst1200', 'log', ()),
              ('exc', 'print', ()), ('log+exc', 'exc', (1,)), ('wprint', 'print+flush+eprint', ()), ('print+flush+wprint', 'eprint', ())]
     for pa, pb, faults in extra:
